@@ -53,7 +53,9 @@ type basicTaskBase struct {
 }
 
 func (t *basicTaskBase) startBasicTask() (err error) {
-	t.taskCmd, err = prepareTaskCmd(t.Tci)
+	// Kill resets t.taskCmd at any time: work on a local reference
+	taskCmd, err := prepareTaskCmd(t.Tci)
+	t.taskCmd = taskCmd
 	if err != nil {
 		msg := "cannot build task command"
 		log.WithField("partition", t.knownEnvironmentId.String()).
@@ -65,7 +67,7 @@ func (t *basicTaskBase) startBasicTask() (err error) {
 			Error(msg)
 		return err
 	}
-	if t.taskCmd == nil {
+	if taskCmd == nil {
 		return errors.New("could not instantiate basic task command")
 	}
 
@@ -138,10 +140,10 @@ func (t *basicTaskBase) startBasicTask() (err error) {
 		stderr = &stderrBuf
 	}
 
-	stdoutIn, _ := t.taskCmd.StdoutPipe()
-	stderrIn, _ := t.taskCmd.StderrPipe()
+	stdoutIn, _ := taskCmd.StdoutPipe()
+	stderrIn, _ := taskCmd.StderrPipe()
 
-	err = t.taskCmd.Start()
+	err = taskCmd.Start()
 
 	if err != nil {
 		log.WithField("partition", t.knownEnvironmentId.String()).
@@ -167,8 +169,6 @@ func (t *basicTaskBase) startBasicTask() (err error) {
 		_, errStderr = io.Copy(stderr, stderrIn)
 	}()
 
-	// Kill resets t.taskCmd, possibly before the goroutine below gets to run
-	taskCmd := t.taskCmd
 	go func() {
 		err = taskCmd.Wait()
 		// ^ when this unblocks, the task is done
